@@ -161,6 +161,22 @@ def check(case):
             d = canon_digest(Gc, nk, ek)
             view = can.G
             if pi < 2:
+                # probe cheaply, then ask without limits - on one object: the unlimited answer is the fresh object's
+                can2 = CRNCanonicalizer(H, **kw)
+                for md in (1, 2):
+                    try:
+                        can2.summary(max_depth=md, timeout_sec=None)
+                    except Exception:
+                        pass
+                s2 = can2.summary(timeout_sec=None)
+                ncalls += 3
+                orb = lambda x: {frozenset(map(str, o)) for o in x}
+                if canon_digest(s2["canon_graph"], nk, ek) != d or s2["automorphism_count"] != summ["automorphism_count"] or orb(s2["orbits"]) != orb(summ["orbits"]) or bool(s2["early_stop"]) != bool(summ["early_stop"]):
+                    fails.append(Fail("limited_then_unlimited", f"{cname}: after calls with max_depth 1 and 2 the unlimited call reports {s2['automorphism_count']} automorphisms, early_stop={s2['early_stop']}",
+                                      f"{summ['automorphism_count']} automorphisms, early_stop={summ['early_stop']} and the same canonical graph and orbits as a fresh object", key_extra=cname))
+                    dead.add(cname)
+                    continue
+            if pi < 2:
                 W = own_view(net, names, order, ids, cname)
                 if not same_view(view, W, ek):
                     fails.append(Fail("wrong_view", f"{cname}: arcs {sorted((str(u), str(v), tuple(view[u][v].get(k) for k in ek)) for u, v in view.edges)}", f"{sorted((str(u), str(v), tuple(W[u][v].get(k) for k in ek)) for u, v in W.edges)}", key_extra=cname))
